@@ -150,6 +150,7 @@ EXTRA = [("open_limit", (1,)), ("open_limit", (2,)), ("open_limit", (3,)), ("ope
          ("open_limit", ((1 << 62) + 1,)), ("alter_lincom", ("lincom", 1, "raw")), ("alter_lincom", ("carray", 0, "raw")),
          ("add_const", ("newf", 0x88, 0, 0)), ("constants", (0xfa0,)), ("alter_frameoffset64", (I63 - 1, 0, 0)),
          ("alter_spec", ("phase", 0)), ("malter_spec", ("meta", "raw", 0)), ("add_spec", ("phase", 0)),
+         ("add_entry", ("newf", 2, 17, 0)), ("madd_entry", ("raw", "newm", 2, 17)), ("add_entry", ("newf", 8, 17, 0)),
          ("add_entry", ("newf", 19, -1, 0)), ("add_sarray", ("newf", I64 - 1, 0)),
          ("alter_bit", ("bit", "!", 63, 64)), ("alter_bit", ("bit", "!", 0, 65)), ("alter_sbit", ("sbit", "!", 70, 70))]
 
